@@ -384,5 +384,5 @@ def cli_strategy():
 
 def parts(tier):
     t = tier == 'thorough'
-    return [Part('libraries', eval_case, strategy=strategy, examples=20000 if t else 1100),
-            Part('cli', eval_case, strategy=cli_strategy, examples=400 if t else 16)]
+    return [Part('libraries', eval_case, strategy=strategy, examples=40000 if t else 1100),
+            Part('cli', eval_case, strategy=cli_strategy, examples=800 if t else 16)]
